@@ -242,7 +242,7 @@ META = {
                    "`computed == presented` outcome; the secret is the provider's answer for the presented access key; every component the "
                    "spec signs flows into the string to sign (argument provenance + parameter->result taint inside the builders); payload-mode "
                    "dispatch; layout of the canonical request / string to sign / HMAC chain; URI-encoding byte table. Completeness (every valid "
-                   "request accepted) and exact canonical text (folding, joining) are not decided.",
+                   "request accepted) and exact canonical text (folding, joining) are not decided. Round 4: the header view is sorted by name only, stably (V6).",
     "not_decided": ["completeness as a whole", "semantics of trim/sort/SHA-256/HMAC (library contracts)", "folding of inner whitespace and joining of repeated headers"],
     "assumptions": ["rustc nightly MIR construction", "default call summary for non-workspace callees: result depends on all arguments"],
 }
